@@ -9,9 +9,6 @@ namespace Pfl
 namespace CFG
 open Pfl.CFG.Sub
 
--- the `Nodup` hypotheses of the statements below turn out not to be needed by the proofs
-set_option linter.unusedVariables false
-
 /-- `w` is obtained from the terminal word `u` by replacing every occurrence of a substituted
 terminal by a word of its grammar (other terminals stay) -/
 inductive SubstWord (subst : List (String × CFG)) : List String → List String → Prop
@@ -21,25 +18,22 @@ inductive SubstWord (subst : List (String × CFG)) : List String → List String
   | repl {t : String} {H : CFG} {v u w : List String} :
       (t, H) ∈ subst → H.Lang v → SubstWord subst u w → SubstWord subst (t :: u) (v ++ w)
 
-/-- hypotheses under which the library's renaming cannot capture anything: every grammar involved
-is well-formed, no terminal of any grammar involved is spelled like a variable of one of them or
-like a renamed variable, and the substituted terminals are pairwise different -/
+/-- hypotheses of `substitute_lang`: every grammar involved is well-formed (its productions only
+use its declared variables and terminals, its start symbol is one of its variables), the substituted
+terminals (the keys) are pairwise different, and every substituted grammar has a start symbol (the
+library leaves the terminal in place when it has none).  Nothing is asked about the spelling of
+terminals and variables: a terminal may be spelled like a variable of any grammar involved, the
+renaming only ever touches variables and the substituted terminals. -/
 structure SubstOK (G : CFG) (subst : List (String × CFG)) : Prop where
   wfG : G.WF
   wfH : ∀ e ∈ subst, e.2.WF
   keys : (subst.map (·.1)).Nodup
-  startG : G.start ≠ none
   startH : ∀ e ∈ subst, e.2.start ≠ none
-  nodupG : G.vars.Nodup
-  nodupH : ∀ e ∈ subst, e.2.vars.Nodup
-  tersG : ∀ t ∈ G.ters, t ∉ G.vars
-  tersH : ∀ e ∈ subst, ∀ t ∈ e.2.ters, t ∉ e.2.vars
 
 theorem substitute_lang (G : CFG) (subst : List (String × CFG)) (h : SubstOK G subst) (w : List String) :
     (G.substitute subst).Lang w ↔ ∃ u, G.Lang u ∧ SubstWord subst u w := by
   have ok : OK G subst :=
-    { wfG := h.wfG, wfH := h.wfH, keys := h.keys, startH := h.startH, tersG := h.tersG,
-      tersH := h.tersH }
+    { wfG := h.wfG, wfH := h.wfH, keys := h.keys, startH := h.startH }
   have e : ∀ u w, SubstWord subst u w ↔ SW subst u w := by
     intro u w
     constructor
@@ -57,24 +51,20 @@ theorem substitute_lang (G : CFG) (subst : List (String × CFG)) (h : SubstOK G 
   exact substitute_lang_sw ok w
 
 theorem union_lang (G H : CFG) (hG : G.WF) (hH : H.WF) (sG : G.start ≠ none) (sH : H.start ≠ none)
-    (nG : G.vars.Nodup) (nH : H.vars.Nodup) (tG : ∀ t ∈ G.ters, t ∉ G.vars) (tH : ∀ t ∈ H.ters, t ∉ H.vars)
     (w : List String) : (G.union H).Lang w ↔ G.Lang w ∨ H.Lang w := by
-  exact union_lang' G H hG hH sG sH tG tH w
+  exact union_lang' G H hG hH sG sH w
 
 theorem concatenate_lang (G H : CFG) (hG : G.WF) (hH : H.WF) (sG : G.start ≠ none) (sH : H.start ≠ none)
-    (nG : G.vars.Nodup) (nH : H.vars.Nodup) (tG : ∀ t ∈ G.ters, t ∉ G.vars) (tH : ∀ t ∈ H.ters, t ∉ H.vars)
     (w : List String) : (G.concatenate H).Lang w ↔ ∃ u v, w = u ++ v ∧ G.Lang u ∧ H.Lang v := by
-  exact concatenate_lang' G H hG hH sG sH tG tH w
+  exact concatenate_lang' G H hG hH sG sH w
 
-theorem closure_lang (G : CFG) (hG : G.WF) (sG : G.start ≠ none) (nG : G.vars.Nodup)
-    (tG : ∀ t ∈ G.ters, t ∉ G.vars) (w : List String) :
+theorem closure_lang (G : CFG) (hG : G.WF) (sG : G.start ≠ none) (w : List String) :
     G.closure.Lang w ↔ ∃ ws : List (List String), w = ws.flatten ∧ ∀ x ∈ ws, G.Lang x := by
-  exact closure_lang' G hG sG tG w
+  exact closure_lang' G hG sG w
 
-theorem posClosure_lang (G : CFG) (hG : G.WF) (sG : G.start ≠ none) (nG : G.vars.Nodup)
-    (tG : ∀ t ∈ G.ters, t ∉ G.vars) (w : List String) :
+theorem posClosure_lang (G : CFG) (hG : G.WF) (sG : G.start ≠ none) (w : List String) :
     G.posClosure.Lang w ↔ ∃ ws : List (List String), ws ≠ [] ∧ w = ws.flatten ∧ ∀ x ∈ ws, G.Lang x := by
-  exact posClosure_lang' G hG sG tG w
+  exact posClosure_lang' G hG sG w
 
 end CFG
 end Pfl
